@@ -25,8 +25,9 @@ import (
 
 // c19Samples are the sequence numbers the URL builders are evaluated on: small ones (zero padding),
 // group boundaries, and numbers whose three digit groups are pairwise different (a wrong divisor or
-// modulus shows), all below 10^9 (three groups of three digits).
-var c19Samples = []uint64{1, 12, 999, 1000, 54321, 999999, 1000000, 2010580, 123456789, 987654321}
+// modulus shows), and two numbers of 10^9 and more: the layout table puts everything above the two low groups
+// into the top level ({n/10^6:03d}, at least three digits), it does not wrap.
+var c19Samples = []uint64{1, 12, 999, 1000, 54321, 999999, 1000000, 2010580, 123456789, 987654321, 1000000000, 4294967295}
 
 // c19Base is the base URL of the abstract datasource a method is evaluated on, c19DefaultBase that of the
 // package-level default datasource: a lookup that reads through the wrong one shows in the URL.
@@ -40,7 +41,11 @@ func (t *c19Table) numberedURL(base, dir string, n uint64, suffix string) string
 	mod := uint64(c19Pow10(t.SeqPath.Digits))
 	for k := 0; k < t.SeqPath.Levels; k++ {
 		d := uint64(c19Pow10(t.SeqPath.Digits * (t.SeqPath.Levels - 1 - k)))
-		args = append(args, (n/d)%mod)
+		if k == 0 {
+			args = append(args, n/d) // the top level takes all the remaining digits
+		} else {
+			args = append(args, (n/d)%mod)
+		}
 	}
 	return fmt.Sprintf(t.SeqPath.Format, args...) + suffix
 }
@@ -253,7 +258,7 @@ func c19M3(r *core.R) {
 		case dm.role == "current":
 			r.OK(c, dm.fi.Decl.Pos(), "evaluated on the abstract datasource: the first request goes to %s, the current-state file of family %s", wants[0].url, k.Family)
 		default:
-			r.OK(c, dm.fi.Decl.Pos(), "evaluated for %d sequence numbers (zero padding, group boundaries, distinct digit groups): the first request goes to the table's URL, e.g. %s", len(wants), wants[len(wants)-3].url)
+			r.OK(c, dm.fi.Decl.Pos(), "evaluated for %d sequence numbers (zero padding, group boundaries, distinct digit groups): the first request goes to the table's URL, e.g. %s", len(wants), wants[7].url)
 		}
 	}
 
